@@ -48,8 +48,11 @@ UNIT = {
              "match r { Ok(a) => abi_allowed(a, ctx.spec_options().s_features()), Err(_) => true }",
              # and it is the effective one (override first), never something else
              "match r { Ok(a) => a == effective_abi(self, ctx, name), Err(_) => true }",
-             # not withheld: an allowed, non-(variadic Win64) effective ABI is accepted
-             "(abi_allowed(effective_abi(self, ctx, name), ctx.spec_options().s_features()) && !(effective_abi(self, ctx, name) == ClangAbi::Known(Abi::Win64) && self.is_variadic && self.argument_types@.len() != 0)) ==> r.is_ok()",
+             # not withheld: an allowed, non-(variadic Win64) effective ABI that HAS a Rust spelling is accepted
+             "(effective_abi(self, ctx, name) is Known && abi_allowed(effective_abi(self, ctx, name), ctx.spec_options().s_features()) && !(effective_abi(self, ctx, name) == ClangAbi::Known(Abi::Win64) && self.is_variadic && self.argument_types@.len() != 0)) ==> r.is_ok()",
+             # C12: an accepted ABI can always be printed (ClangAbi::Unknown has no Rust spelling: its ToTokens impl and
+             # Function::codegen panic on it) -- failed on the unchanged tree: finding F11, repaired
+             "match r { Ok(a) => a is Known, Err(_) => true }",
          ]},
     ],
 }
